@@ -102,6 +102,21 @@ Fixpoint hold_rec (fuel : nat) (b : builder) (dur : Z) : res builder :=
 Definition hold_position_for (b : builder) (dur : Z) : res builder :=
   hold_rec (Z.to_nat (dur / BUILDER_MAX_DURATION_MSEC) + 2) b dur.
 
+(** The same function in closed form (what the loop above produces: one
+    60 s hold segment per full minute, then the remainder), used to *run*
+    holds of days (tens of thousands of segments) in the correspondence;
+    [hold_fast_eq] (Proofs/BuilderFast_Proofs.v) proves it equal to the
+    transcription above for every builder and duration. *)
+Definition hold_seg (dur : Z) : list Z := let u := dur mod 65536 in [0; u mod 256; u / 256].
+Definition hold_fast (b : builder) (dur : Z) : res builder :=
+  if dur <=? 0 then Ok b else
+  _ <- validate_point (bb_scale b) (bb_last b) ;;
+  let q := dur / BUILDER_MAX_DURATION_MSEC in
+  let r := dur mod BUILDER_MAX_DURATION_MSEC in
+  Ok (mkbuilder (bb_bytes b ++ concat (repeat (hold_seg BUILDER_MAX_DURATION_MSEC) (Z.to_nat q))
+                           ++ (if 0 <? r then hold_seg r else []))
+                (bb_last b) (bb_scale b)).
+
 (** sb_trajectory_init_from_builder: the trajectory takes the bytes, the
     builder restarts with the same header byte (scale and last position kept) *)
 Definition finish (b : builder) : list Z * builder :=
@@ -158,5 +173,41 @@ Definition rth_to_trajectory (e : rth_entry) (start : vec4) : res (list Z) :=
         else Err SB_EINVAL) ;;
   b <- (if fgt0 (re_post_delay e) then
           d <- msec_of_sec (re_post_delay e) ;; hold_position_for b d
+        else Ok b) ;;
+  Ok (fst (finish b)).
+
+(** the same conversion with the closed-form hold (equal by [rth_fast_eq]) *)
+Definition rth_to_trajectory_fast (e : rth_entry) (start : vec4) : res (list Z) :=
+  let a := re_action e in
+  s1 <- scale_update 1 (vx start) (vy start) (vz start) ;;
+  s2 <- (if has_neck a then scale_update s1 0 0 (fadd (vz start) (re_neck e)) else Ok s1) ;;
+  s3 <- (if has_target a then scale_update s2 (fst (re_target e)) (snd (re_target e)) 0 else Ok s2) ;;
+  s4 <- (if has_altitude a then scale_update s3 0 0 (re_altitude e) else Ok s3) ;;
+  let start_time := match re_time e with
+                    | FVal q => if Qltb q 0 then FVal 0 else FVal q
+                    | FInf true => FVal 0
+                    | x => x
+                    end in
+  d0 <- msec_of_sec (fnum_add start_time (if fgt0 (re_pre_delay e) then re_pre_delay e else FVal 0)) ;;
+  b <- builder_init s4 0 ;;
+  b <- set_start_position b start ;;
+  b <- hold_fast b d0 ;;
+  (* pre-neck *)
+  r <- (if negb (Qeq_bool (re_neck e) 0) || fnonzero (re_neck_duration e) then
+          dn <- msec_of_sec (re_neck_duration e) ;;
+          let tgt := mkvec4 (vx start) (vy start) (fadd (vz start) (re_neck e)) (vyaw start) in
+          b' <- append_line b tgt dn ;; Ok (b', tgt)
+        else Ok (b, start)) ;;
+  let '(b, target) := r in
+  b <- (if a =? SB_RTH_ACTION_LAND then Ok b
+        else if a =? SB_RTH_ACTION_GO_TO_KEEPING_ALTITUDE then
+          d <- msec_of_sec (re_duration e) ;;
+          append_line b (mkvec4 (fst (re_target e)) (snd (re_target e)) (vz target) (vyaw target)) d
+        else if a =? SB_RTH_ACTION_GO_TO_WITH_ALTITUDE then
+          d <- msec_of_sec (re_duration e) ;;
+          append_line b (mkvec4 (fst (re_target e)) (snd (re_target e)) (re_altitude e) (vyaw target)) d
+        else Err SB_EINVAL) ;;
+  b <- (if fgt0 (re_post_delay e) then
+          d <- msec_of_sec (re_post_delay e) ;; hold_fast b d
         else Ok b) ;;
   Ok (fst (finish b)).
